@@ -382,12 +382,19 @@ def run(tier):
                       "element types other than the recording type, mpt_array_traits and the tracked C++ class are covered only "
                       "as far as they share these code paths",
                       "the exhaustive model is bounded (see MC cfg); beyond it coverage is by the seeded histories"]
+    # extension X05: containers of managed elements (checks/x05_containers.py, docs/X05_containers.md)
+    import x05_containers
+    if x05_containers.enabled():
+        x05_containers.run_part(ck, tier)
     return ck.finish()
 
 
 def replay(path):
     d = json.load(open(path))
     det = d["detail"]
+    if det.get("part") == "x05_containers":
+        import x05_containers
+        return x05_containers.replay(det, path)
     beh = det.get("behaviour")
     if not beh:
         print(json.dumps(det, indent=1)[:4000])
